@@ -55,7 +55,7 @@ const OpSpec STRING_OPS[] = {
     { "assign_fill", 2, "nc" }, { "assign_char", 1, "c" }, { "assign_iter", 2, "s" }, { "assign_iter_self", 2, "in" }, { "assign_narrow", 2, "sa" }, { "assign_narrow_n", 1, "sn" },
     { "append_str", 8, "sa" }, { "append_ptr", 4, "sa" }, { "append_ptr_n", 3, "sn" }, { "append_sub", 3, "sin" }, { "append_sub_npos", 2, "si" }, { "append_self", 2, "a" },
     { "append_fill", 4, "nc" }, { "push_back", 8, "ca" }, { "append_narrow", 2, "s" }, { "append_narrow_n", 1, "sn" },
-    { "insert_str", 5, "is" }, { "insert_ptr", 3, "is" }, { "insert_ptr_n", 2, "ism" }, { "insert_sub", 2, "isjm" }, { "insert_self", 2, "i" }, { "insert_fill", 3, "imc" },
+    { "insert_str", 5, "is" }, { "insert_ptr", 3, "is" }, { "insert_ptr_n", 2, "ism" }, { "insert_sub", 2, "isjm" }, { "insert_self", 2, "i" }, { "insert_self_ptr", 2, "ijm" }, { "append_self_ptr", 2, "jm" }, { "assign_self_ptr", 1, "jm" }, { "insert_fill", 3, "imc" },
     { "insert_it_char", 3, "ic" }, { "insert_it_fill", 2, "imc" }, { "insert_it_range", 2, "is" },
     { "erase", 7, "in" }, { "erase_over", 2, "in" }, { "erase_npos", 2, "i" }, { "erase_all", 1, "" }, { "erase_it", 3, "i" }, { "erase_it_range", 3, "in" }, { "clear", 2, "" },
     { "resize", 6, "nc" }, { "resize_default", 2, "n" }, { "reserve", 3, "n" }, { "swap", 3, "" }, { "assign_to_b", 2, "" }, { "set_char", 3, "ica" },
@@ -89,7 +89,7 @@ struct Gen {
         case 's': o["s"] = text(); break;
         case 'V': o["vals"] = ids(); break;
         case 'r': o["rel"] = (int)(g.chance(1, 2) ? 0 : 1 + g.below(4)); break;
-        case 'h': o["how"] = (int)g.below(6); break;
+        case 'h': o["how"] = (int)g.below(10); break;
         case 'a': o["via"] = (int)g.below(2); break;
         case 'e': o["keep"] = (int)g.below(2); break;
         case 'f': o["self"] = (int)(g.chance(1, 3) ? 1 : 0); break;
